@@ -17,7 +17,11 @@ package main
 //     well-nested traces (oracle C19, independent of the Lean model);
 //   - registers the line `mw.run <kind> <chain> <core> <m0>,<c0>,<op0>` to be answered by the Lean
 //     `runImpl`;
-//   - re-runs all the requests of a chain concurrently from several goroutines sharing the chain.
+//   - re-runs all the requests of a chain concurrently from several goroutines sharing the chain;
+//   - (server stages) re-reads the request header through the stage's OWN context after every call of
+//     next and on return: it must not change under the stage (oracle stage-context-stable);
+//   - mwoverlap.go: overlapping invocations of next within one request, and aliasing of the registered
+//     chain with the caller's slices (impl-side scenarios, not expressible in the sequential model).
 // Only the public API of the library is used.
 
 import (
@@ -1625,7 +1629,7 @@ func mwParseLine(l string) (*mwCase, error) {
 func init() {
 	register(&Engine{
 		Name: "mw",
-		Rule: "(see also: batches of 2..5 items through every item chain; both server chains installed together; every chain of length <= 2 and a fifth of the longer ones registered in another way — one variadic call, one call per stage, split in two or three calls, CloneCtx, DialClusterContext — and with one of the library's own middlewares inserted; Client.Request / Batch / version negotiation through an installed chain) middleware chains as data: ALL chains of length 0..3 (quick) / 0..4 (thorough) over an alphabet of stage programs (pass-through, tag message and context, call twice / three times, retry while failed, short-circuit with a response / an error / (nil,nil), ignore or rewrite the inner result, return (nil,err), swallow the error, turn success into error, constant message / context, REWRITE THE OPERATION of the message to another routed operation / to an unrouted one, call with the original then with the rewritten operation) x handler scripts (always ok, fail n times then ok, always fail, refuse the unmodified message, alternate) x initial operation (two routed to distinct handlers, one unrouted) x {client chain, server message chain, server batch item chain}, plus random chains of length 4..8 of random programs and pass-through chains of 9..65 stages (one stage calling next twice, one tagging); every group of requests is run sequentially and then concurrently from 8 goroutines sharing the chain; distinct = distinct line; nontrivial = chain with at least two stages or a stage calling next other than once",
+		Rule: "(see also: batches of 2..5 items through every item chain; both server chains installed together; every chain of length <= 2 and a fifth of the longer ones registered in another way — one variadic call, one call per stage, split in two or three calls, CloneCtx, DialClusterContext — and with one of the library's own middlewares inserted; Client.Request / Batch / version negotiation through an installed chain; impl-side only: every server stage re-reads GetRequestHeader / GetProtocolVersion on the context IT received after each call of next and when it returns — unchanged whatever the inner stages executed; `# mw.overlap`: a hedging stage at every position h of chains of 1..4 (thorough 1..6) stages invokes next from another goroutine, that invocation is held at every depth h+1..core, the stage meanwhile invokes next again once / twice / from a third goroutine held elsewhere / returns and leaves the invocation behind, for the client chain, the server message chain, the item chain and every split of both — every invocation traverses the whole remainder once and gets its own answer; `# mw.alias`: two clients / executors configured from ONE caller-owned list passed variadically (length 0..3, spare capacity 0/1/3; one Option value shared by two DialContext calls; CloneCtx) plus 0..2 stages of their own, the caller then overwrites its lists and fills their spare capacity — each object runs what was registered on it, before and after) middleware chains as data: ALL chains of length 0..3 (quick) / 0..4 (thorough) over an alphabet of stage programs (pass-through, tag message and context, call twice / three times, retry while failed, short-circuit with a response / an error / (nil,nil), ignore or rewrite the inner result, return (nil,err), swallow the error, turn success into error, constant message / context, REWRITE THE OPERATION of the message to another routed operation / to an unrouted one, call with the original then with the rewritten operation) x handler scripts (always ok, fail n times then ok, always fail, refuse the unmodified message, alternate) x initial operation (two routed to distinct handlers, one unrouted) x {client chain, server message chain, server batch item chain}, plus random chains of length 4..8 of random programs and pass-through chains of 9..65 stages (one stage calling next twice, one tagging); every group of requests is run sequentially and then concurrently from 8 goroutines sharing the chain; distinct = distinct line; nontrivial = chain with at least two stages or a stage calling next other than once",
 		Run:  runMw,
 	})
 }
@@ -2048,6 +2052,7 @@ func mwOracle(ctx *Ctx, cs *mwCase, line, answer string, rec *mwRec, finals []mw
 // mwRunRaceChild: every chain of length <= 2 of every kind, each group run sequentially and then from 8
 // goroutines (scripted and real transport), plus a few longer random chains.
 func mwRunRaceChild(ctx *Ctx) {
+	mwOverlap(ctx) // invocations of next from several goroutines within one request
 	idx := 0
 	cores := mwCores(false)
 	group := func(kind, chainSrc, ichainSrc string) {
@@ -2214,6 +2219,9 @@ func runMw(ctx *Ctx) {
 	}
 	if len(ctx.Replay) > 0 {
 		for _, l := range ctx.Replay {
+			if mwReplayExtra(ctx, l) {
+				continue
+			}
 			if !strings.HasPrefix(l, "mw.run ") && !strings.HasPrefix(l, "mw.both ") && !strings.HasPrefix(l, "mw.items ") {
 				continue
 			}
@@ -2227,6 +2235,8 @@ func runMw(ctx *Ctx) {
 		return
 	}
 	mwEntryPoints(ctx)
+	mwOverlap(ctx)
+	mwAlias(ctx)
 	kinds := []string{"client", "srvmsg", "srvitem"}
 	idx := 0
 	// one group = one chain, one request per handler script, with varying initial tokens / operation
